@@ -272,7 +272,7 @@ def classify_schema(tr: Tr, script: str, where: str):
             res.append(("insertVersion",))
         elif re.match(r"^INSERT OR REPLACE INTO option\s*\(key, value\) VALUES\s*\('database_version', '\d+'\);?$",
                       flat, re.I):
-            res.append(("insertVersion",))
+            res.append(("upsertVersion",))
         else:
             raise TranslatorError(f"{where}: unclassified schema statement: {flat[:80]}")
     return res, tinfo
